@@ -40,6 +40,13 @@ class RetentionFamily:
             steps += 1
             if not removed_model and rng.random() < 0.12:
                 removed_model = True
+                if models[1].get('on') and rng.random() < 0.5:
+                    # the model is re-deployed with fewer start events before it is removed
+                    m2 = json.loads(json.dumps(models[1]))
+                    m2['on'] = m2['on'][:-1]
+                    if not m2['on']:
+                        m2.pop('on')
+                    ops += [{'op': 'deploy', 'yaml': json.dumps(m2)}, {'op': 'quiesce'}, {'op': 'snapshot', 'level': 'all'}]
                 ops += [{'op': 'model_rm', 'id': 'mb'}, {'op': 'quiesce'}, {'op': 'snapshot', 'level': 'all'}]
                 continue
             p = rng.choice(alive)
@@ -131,6 +138,8 @@ class RetentionFamily:
                     mb = {r['id'] for r in s['models']}
                     if ma - mb != {rm_model} & ma:
                         out.append(V('C17', 'model-rm-models', tag, f"after removing model {rm_model}: models {sorted(mb)} were {sorted(ma)}", scenario=sid))
+                elif any(o['op'] == 'deploy' for o in op_between):
+                    obs['c17.redeploys'] += 1
                 elif ea != eb:
                     out.append(V('C17', 'events-changed-without-model-op', tag, f"events changed from {sorted(ea)} to {sorted(eb)}", scenario=sid))
             prev = (seq, i, s)
